@@ -54,6 +54,7 @@ def get_sys(kind):
         c = CompositeSystem([ElementalSystem(0, mb.get_normalized_pauli_basis()), ElementalSystem(1, mb.get_normalized_pauli_basis())])
     else:
         raise AssertionError(kind)
+    elems = list(c.elemental_systems) if hasattr(c, "elemental_systems") else list(c._elemental_systems)
     B = [np.array(b.toarray() if hasattr(b, "toarray") else b, dtype=complex) for b in c.basis().basis]
     d = c.dim
     assert len(B) == d * d
@@ -69,7 +70,7 @@ def get_sys(kind):
         back = np.array([[complex(float(x), float(y)) for x, y in row] for row in rq]) * k
         assert np.abs(back - b).max() < 1e-14, "basis element has no half-integer pre-image"
         R.append(rq); kappa.append(k)
-    s = {"kind": kind, "c": c, "d": d, "n": d * d, "B": B, "R": R, "kappa": kappa, "sd": float(np.sqrt(d))}
+    s = {"kind": kind, "c": c, "d": d, "n": d * d, "B": B, "R": R, "kappa": kappa, "sd": float(np.sqrt(d)), "elems": elems}
     _SYS[kind] = s
     return s
 
@@ -113,6 +114,12 @@ def op_json(rows):
         re, im = Fraction(re), Fraction(im)
         return [[re.numerator, re.denominator], [im.numerator, im.denominator]]
     return [[one(z) for z in row] for row in rows]
+
+
+def op_kron(a, b):
+    """exact Kronecker product of two Ops"""
+    da, db = len(a.q), len(b.q)
+    return Op([[cmul(a.q[i // db][j // db], b.q[i % db][j % db]) for j in range(da * db)] for i in range(da * db)])
 
 
 def rand_gauss(rng, r, c, lo=-3, hi=3):
@@ -219,8 +226,25 @@ class Setup:
         d = S["d"]
         self.para = bool(cfg["para"])
         self.m = int(cfg.get("m", 0))
-        self.state_ops = [rand_state_op(rng, d) for _ in range(cfg.get("n_states", 0))]
-        self.povm_ops = [rand_povm_ops(rng, d, mm) for mm in cfg.get("povm_ms", [])]
+        # cfg["csys"]: how the testers' CompositeSystem objects come about -- "shared" (one object for everything), "fresh" (every tester and
+        # every candidate on its own, EQUAL but not identical CompositeSystem built from the same ElementalSystem objects), "product" (two
+        # qubits: every tester is tensor_product of one-qubit testers, which creates a new CompositeSystem per product)
+        self.csys_mode = cfg.get("csys", "shared")
+        self.factors = None
+        if self.csys_mode == "product":
+            assert cfg["sys"] == "2q"
+            sf, pf = [], []
+            for _ in range(cfg.get("n_states", 0)):
+                sf.append((rand_state_op(rng, 2), rand_state_op(rng, 2)))
+            for mm in cfg.get("povm_ms", []):
+                m1 = rng.choice([k for k in range(1, mm + 1) if mm % k == 0])
+                pf.append((rand_povm_ops(rng, 2, m1), rand_povm_ops(rng, 2, mm // m1)))
+            self.factors = (sf, pf)
+            self.state_ops = [op_kron(a, b) for a, b in sf]
+            self.povm_ops = [[op_kron(x, y) for x in pa for y in pb] for pa, pb in pf]       # first factor's outcome is the major index
+        else:
+            self.state_ops = [rand_state_op(rng, d) for _ in range(cfg.get("n_states", 0))]
+            self.povm_ops = [rand_povm_ops(rng, d, mm) for mm in cfg.get("povm_ms", [])]
         if "xstates" in cfg:            # explicit testers (boundary stream): exact Gaussian-rational operators, JSON-serialised
             self.state_ops = [op_from_json(o) for o in cfg["xstates"]]
         if "xpovms" in cfg:
@@ -240,14 +264,20 @@ class Setup:
                     """the array handed to quara: contiguous copy, or (layout 'views') a strided float64 view into a larger buffer.
                     reuse: the caller overwrites the buffer afterwards (only for Povm, which copies its vecs; State / Gate keep a reference
                     to the caller's array by design of their constructors -- observation outside this property)"""
+                    if cfg.get("layout") == "readonly":
+                        w = np.array(v, dtype=np.float64); w.setflags(write=False)
+                        return w
                     if cfg.get("layout") != "views":
                         return v
                     big = np.full(3 * len(v) + 1, 9.0); big[1::3] = v
                     if reuse:
                         bufs.append(big)
                     return big[1::3]
-                self.states = [State(c, arg(v, False)) for v in self.state_vecs]
-                self.povms = [Povm(c, [arg(v, True) for v in vs]) for vs in self.povm_vecs]
+                if self.csys_mode == "product":
+                    self.states, self.povms = self._product_testers()
+                else:
+                    self.states = [State(self.new_c(), arg(v, False)) for v in self.state_vecs]
+                    self.povms = [Povm(self.new_c(), [arg(v, True) for v in vs]) for vs in self.povm_vecs]
                 sch = "all" if cfg["sched"] == "all" else [quara_schedule(t, s) for s in self.scheds]
                 try:
                     self.qt = self._construct(sch)
@@ -255,6 +285,32 @@ class Setup:
                     self.impl_error = e
                 for big in bufs:                 # the caller re-uses its buffers: the tomography object must not alias them
                     big[...] = -3.0
+
+    def new_c(self):
+        """the CompositeSystem an object is built on: the shared one, or a new equal instance over the same ElementalSystem objects"""
+        if self.csys_mode == "shared":
+            return self.S["c"]
+        from quara.objects.composite_system import CompositeSystem
+        return CompositeSystem(list(self.S["elems"]))
+
+    def _product_testers(self):
+        from quara.objects.composite_system import CompositeSystem
+        from quara.objects.operators import tensor_product
+        from quara.objects.state import State
+        from quara.objects.povm import Povm
+        S1 = get_sys("1q")
+        e0, e1 = self.S["elems"]
+        sf, pf = self.factors
+        states = [tensor_product(State(CompositeSystem([e0]), a.vec(S1)), State(CompositeSystem([e1]), b.vec(S1))) for a, b in sf]
+        povms = [tensor_product(Povm(CompositeSystem([e0]), [o.vec(S1) for o in pa]), Povm(CompositeSystem([e1]), [o.vec(S1) for o in pb])) for pa, pb in pf]
+        # the product objects must be the operators the model is given (layout of tensor_product is C07's claim; checked here as a precondition)
+        for obj, v in zip(states, self.state_vecs):
+            if np.abs(np.asarray(obj.vec) - v).max() > 1e-12:
+                raise ValueError("tensor_product(State, State) is not the Kronecker product of the factors in the composite basis")
+        for obj, vs in zip(povms, self.povm_vecs):
+            if len(obj.vecs) != len(vs) or any(np.abs(np.asarray(a) - b).max() > 1e-12 for a, b in zip(obj.vecs, vs)):
+                raise ValueError("tensor_product(Povm, Povm) is not the list of Kronecker products (first factor major)")
+        return states, povms
 
     def _construct(self, sch):
         t = self.typ
@@ -353,7 +409,7 @@ class Setup:
         from quara.objects.povm import Povm
         from quara.objects.gate import Gate
         from quara.objects.mprocess import MProcess
-        c, t = self.S["c"], self.typ
+        c, t = self.new_c(), self.typ
         kw = dict(is_physicality_required=False, on_para_eq_constraint=self.para)
         with warnings.catch_warnings():
             warnings.simplefilter("ignore")
@@ -361,9 +417,10 @@ class Setup:
                 return State(c, np.array(arrs, dtype=np.float64), **kw)
             if t == "povmt":
                 return Povm(c, [np.array(a, dtype=np.float64) for a in arrs], **kw)
+            fort = self.cfg.get("layout") in ("views", "readonly")     # candidate matrices Fortran-ordered (same values, other memory layout)
             if t == "qpt":
-                return Gate(c, np.array(arrs, dtype=np.float64), **kw)
-            return MProcess(c, [np.array(a, dtype=np.float64) for a in arrs], **kw)
+                return Gate(c, np.asfortranarray(np.array(arrs, dtype=np.float64)) if fort else np.array(arrs, dtype=np.float64), **kw)
+            return MProcess(c, [np.asfortranarray(np.array(a, dtype=np.float64)) if fort else np.array(a, dtype=np.float64) for a in arrs], **kw)
 
     def var_of_arrays(self, arrs):
         """inverse of object_arrays (harness layout)"""
@@ -545,7 +602,11 @@ def chk_coeffs(ctx, cfg):
         code = mres[1] if mres[0] == "err" else None
         ctx.count("coeffs", key=repr(cfg), nontrivial=False, label="error-branch-%s" % code)
         expect = {ERR_SCHEDULE: ("QuaraScheduleItemError",), ERR_INDEX: ("IndexError",), ERR_WIDTH: ("ValueError",)}.get(code, ())
-        if kind not in expect:
+        if kind == "ValueError" and code is None and "experiment is not valid" in str(setup.impl_error):
+            # a valid tester set (the model builds its forward model) is refused by the constructor's validity test
+            ctx.violation("coeffs", "StandardQTomography.is_all_same_composite_systems", "valid-testers-rejected",
+                          "constructor refuses a valid tester set (composite systems built by route '%s'): %s" % (cfg.get("csys", "shared"), str(setup.impl_error)[:120]), cfg)
+        elif kind not in expect:
             ctx.violation("coeffs", site, "error-kind", "constructor: implementation %s (%s), model %s" % (kind, str(setup.impl_error)[:120], mres[:2]), cfg)
         return
     _, nv, A, b = mres
@@ -620,7 +681,28 @@ def boundary_cfgs(ctx, n):
                 cfg["m"] = 2
         cfg["kind"] = cfg.get("kind", "") + "+boundary-counts"
         if i % 2 == 0:
-            cfg["layout"] = "views"; cfg["kind"] += "+views"
+            cfg["layout"] = "views" if i % 4 == 0 else "readonly"; cfg["kind"] += "+" + cfg["layout"]
+        out.append(cfg)
+    return out
+
+
+def csys_cfgs(ctx, n):
+    """composite systems built by every available route, deterministically in every run (type / route cycle, not seed dependent):
+    even i -- 'fresh': each tester and each candidate on its own equal-but-not-identical CompositeSystem (1 qubit / qutrit);
+    odd i  -- 'product': two-qubit testers that are tensor products of one-qubit testers (a new CompositeSystem per product)"""
+    rng = ctx.rng
+    out = []
+    for i in range(n):
+        typ = TYPES[(i // 2) % 4]
+        if i % 2 == 0:
+            cfg = gen_cfg(rng, typ, "1q" if (i // 8) % 2 == 0 else "3")
+            cfg["csys"] = "fresh"
+        else:
+            cfg = gen_cfg(rng, typ, "2q")
+            cfg["csys"] = "product"
+            if "povm_ms" in cfg:
+                cfg["povm_ms"] = [rng.choice([2, 3, 4, 6]) for _ in cfg["povm_ms"]]
+        cfg["kind"] = cfg.get("kind", "") + "+csys-" + cfg["csys"]
         out.append(cfg)
     return out
 
@@ -669,7 +751,7 @@ def atol_cfgs():
 
 
 def sub_coeffs(ctx):
-    cases = cfg_stream(ctx, 60, 1200) + malformed_cfgs(ctx, ctx.n(8, 80)) + boundary_cfgs(ctx, ctx.n(8, 80))
+    cases = cfg_stream(ctx, 60, 1200) + malformed_cfgs(ctx, ctx.n(8, 80)) + boundary_cfgs(ctx, ctx.n(8, 80)) + csys_cfgs(ctx, ctx.n(8, 64))
     ctx.sample("coeffs", cases[0]); ctx.sample("coeffs", cases[-3])
     ctx.run_cases("coeffs", chk_coeffs, cases)
 
@@ -790,7 +872,7 @@ def _forward_one(ctx, cfg, setup, A, b, counts, site, attr, eps, tag, v):
 
 
 def sub_forward(ctx):
-    cases = cfg_stream(ctx, 48, 900) + boundary_cfgs(ctx, ctx.n(8, 60))
+    cases = cfg_stream(ctx, 48, 900) + boundary_cfgs(ctx, ctx.n(8, 60)) + csys_cfgs(ctx, ctx.n(4, 32))
     for c in cases:
         heavy = c["sys"] != "1q" and c["typ"] in ("qpt", "qmpt")
         c["n_basis"] = 3 if heavy else (6 if ctx.quick else 40)
@@ -960,7 +1042,7 @@ def sub_prob_dists(ctx):
                 sch.insert(rng.randrange(len(sch) + 1), list(rng.choice(other)))
                 cfg["sched"] = sch; cfg["kind"] = cfg.get("kind", "") + "+mixed"
         cases.append(cfg)
-    cases += boundary_cfgs(ctx, ctx.n(8, 60)) + zero_prob_cfgs() + atol_cfgs()
+    cases += boundary_cfgs(ctx, ctx.n(8, 60)) + zero_prob_cfgs() + atol_cfgs() + csys_cfgs(ctx, ctx.n(4, 32))
     ctx.sample("prob_dists", cases[0])
     ctx.run_cases("prob_dists", chk_prob_dists, cases)
 
